@@ -463,8 +463,28 @@ func init() {
 		c.r.release(c.t, &m.sync)
 		return invDone, nil
 	}
+	// sync.RWMutex gives writers preference: from the moment Lock is called (and no other writer
+	// is ahead) new RLock calls block, also while the writer still waits for the active readers
+	// to leave. Lock is therefore two operations: announce (m.writer = the caller), then acquire.
 	stubs["(*sync.RWMutex).Lock"] = func(c *intrCtx) (invResult, Value) {
 		m := c.r.mutexOf(c, 0)
+		if m.writer != c.t {
+			if !c.r.syncPoint(c.t, &pendOp{kind: "RWMutex.Lock(announce)", enabled: func() bool { return m.writer == nil }}) {
+				return invYield, nil
+			}
+			if m.writer != nil {
+				c.r.crash(ODeadlock, "deadlock", "RWMutex.Lock blocks forever")
+			}
+			m.writer = c.t
+			if !m.locked && m.readers == 0 {
+				// no reader to wait for: announcing and acquiring are adjacent steps of the caller
+				// with no observable state in between - one operation
+				m.locked = true
+				c.r.acquire(c.t, m.sync)
+				c.r.acquire(c.t, m.rsync)
+				return invDone, nil
+			}
+		}
 		if !c.r.syncPoint(c.t, &pendOp{kind: "RWMutex.Lock", enabled: func() bool { return !m.locked && m.readers == 0 }}) {
 			return invYield, nil
 		}
@@ -481,10 +501,11 @@ func init() {
 		if !c.r.syncPoint(c.t, &pendOp{kind: "RWMutex.TryLock"}) {
 			return invYield, nil
 		}
-		if m.locked || m.readers > 0 {
+		if m.locked || m.readers > 0 || m.writer != nil {
 			return invDone, c.r.tt.False
 		}
 		m.locked = true
+		m.writer = c.t
 		c.r.acquire(c.t, m.sync)
 		c.r.acquire(c.t, m.rsync)
 		return invDone, c.r.tt.True
@@ -498,15 +519,16 @@ func init() {
 			c.r.crash(OCrash, "panic", "fatal error: sync: Unlock of unlocked RWMutex")
 		}
 		m.locked = false
+		m.writer = nil
 		c.r.release(c.t, &m.sync)
 		return invDone, nil
 	}
 	stubs["(*sync.RWMutex).RLock"] = func(c *intrCtx) (invResult, Value) {
 		m := c.r.mutexOf(c, 0)
-		if !c.r.syncPoint(c.t, &pendOp{kind: "RWMutex.RLock", enabled: func() bool { return !m.locked }}) {
+		if !c.r.syncPoint(c.t, &pendOp{kind: "RWMutex.RLock", enabled: func() bool { return !m.locked && m.writer == nil }}) {
 			return invYield, nil
 		}
-		if m.locked {
+		if m.locked || m.writer != nil {
 			c.r.crash(ODeadlock, "deadlock", "RWMutex.RLock blocks forever")
 		}
 		m.readers++
@@ -518,7 +540,7 @@ func init() {
 		if !c.r.syncPoint(c.t, &pendOp{kind: "RWMutex.TryRLock"}) {
 			return invYield, nil
 		}
-		if m.locked {
+		if m.locked || m.writer != nil {
 			return invDone, c.r.tt.False
 		}
 		m.readers++
@@ -548,21 +570,68 @@ func init() {
 		if m.count < 0 {
 			c.r.goPanic("sync: negative WaitGroup counter")
 		}
+		if m.wgWaiters != 0 && dv > 0 && m.count == int(dv) {
+			c.r.goPanic("sync: WaitGroup misuse: Add called concurrently with Wait")
+		}
 		c.r.release(c.t, &m.sync)
+		if m.count == 0 && m.wgWaiters > 0 {
+			for t := range m.wgAsleep {
+				m.wgReleased[t] = true
+				delete(m.wgAsleep, t)
+			}
+			m.wgWaiters = 0
+		}
 		return invDone, nil
 	}
 	stubs["(*sync.WaitGroup).Add"] = func(c *intrCtx) (invResult, Value) { return wgAdd(c, c.args[1].(*Term)) }
 	stubs["(*sync.WaitGroup).Done"] = func(c *intrCtx) (invResult, Value) { return wgAdd(c, c.r.tt.Int(64, -1)) }
+	// Wait follows sync.WaitGroup's algorithm: with a positive counter the caller registers as a
+	// waiter and sleeps; the Add/Done that brings the counter to zero releases all waiters; a
+	// released waiter that wakes up to a non-zero state panics ("WaitGroup is reused before
+	// previous Wait has returned") - the window between release and wake-up is a scheduling point.
 	stubs["(*sync.WaitGroup).Wait"] = func(c *intrCtx) (invResult, Value) {
 		m := c.r.mutexOf(c, 0)
-		if !c.r.syncPoint(c.t, &pendOp{kind: "WaitGroup.Wait", enabled: func() bool { return m.count == 0 }}) {
-			return invYield, nil
+		if m.wgReleased[c.t] {
+			// second half: woken up
+			if !c.r.syncPoint(c.t, &pendOp{kind: "WaitGroup.Wait(wake)"}) {
+				return invYield, nil
+			}
+			delete(m.wgReleased, c.t)
+			if m.count != 0 || m.wgWaiters != 0 {
+				c.r.goPanic("sync: WaitGroup is reused before previous Wait has returned")
+			}
+			c.r.acquire(c.t, m.sync)
+			return invDone, nil
 		}
-		if m.count != 0 {
+		if m.wgAsleep[c.t] {
+			// registered, not released yet: blocked
+			if !c.r.syncPoint(c.t, &pendOp{kind: "WaitGroup.Wait(asleep)", enabled: func() bool { return m.wgReleased[c.t] }}) {
+				return invYield, nil
+			}
 			c.r.crash(ODeadlock, "deadlock", "WaitGroup.Wait blocks forever")
 		}
-		c.r.acquire(c.t, m.sync)
-		return invDone, nil
+		if !c.r.multi {
+			if m.count != 0 {
+				c.r.crash(ODeadlock, "deadlock", "WaitGroup.Wait blocks forever")
+			}
+			c.r.acquire(c.t, m.sync)
+			return invDone, nil
+		}
+		if !c.r.syncPoint(c.t, &pendOp{kind: "WaitGroup.Wait"}) {
+			return invYield, nil
+		}
+		if m.count == 0 {
+			c.r.acquire(c.t, m.sync)
+			return invDone, nil
+		}
+		if m.wgAsleep == nil {
+			m.wgAsleep, m.wgReleased = map[*Thread]bool{}, map[*Thread]bool{}
+		}
+		m.wgWaiters++
+		m.wgAsleep[c.t] = true
+		// sleep: the intrinsic is entered again once the thread is scheduled, which needs a release
+		c.r.syncPoint(c.t, &pendOp{kind: "WaitGroup.Wait(asleep)", enabled: func() bool { return m.wgReleased[c.t] }})
+		return invYield, nil
 	}
 	// ---- sync.Pool ----
 	stubs["(*sync.Pool).Put"] = func(c *intrCtx) (invResult, Value) {
@@ -717,8 +786,13 @@ func (r *Run) fieldByName(s *Slot, name string) *Slot {
 
 type mutexState struct {
 	locked  bool
+	writer  *Thread // RWMutex: the writer that has announced itself (pending or holding)
 	readers int
 	count   int // WaitGroup
+	// WaitGroup waiters: registered and asleep / released by the Add that reached zero and not yet awake
+	wgWaiters  int
+	wgAsleep   map[*Thread]bool
+	wgReleased map[*Thread]bool
 	sync    *syncMeta
 	rsync   *syncMeta
 }
